@@ -1173,3 +1173,61 @@ func Multi(ops ...*Op) *Op {
 	}
 	return TxOp("multi", msgs...)
 }
+
+// ValidReplaceOp draws a replace-message whose every documented condition holds
+// (apart from the pause flags): an emitted message of a universe account when one
+// exists, else a forged own message that the attesters sign (A3 lifted on purpose).
+func (g *G) ValidReplaceOp(label string, by string) *Op {
+	var cands []SentMsg
+	for _, s := range g.W.Sent {
+		if s.Msg != nil && AcctOfBytes(s.Msg.Sender[12:]) >= 0 && IsZero(s.Msg.Sender[:12]) && !IsZero(s.Msg.Recip) {
+			cands = append(cands, s)
+		}
+	}
+	var orig []byte
+	if len(cands) > 0 && g.Pct(label+"/real", 70) {
+		s := Pick(g, label+"/orig", cands)
+		orig, by = s.Bytes, sdk.AccAddress(s.Msg.Sender[12:]).String()
+	} else {
+		orig = g.forgeOutbound(label+"/forge", Pad32(fromBytes(by)), false, by)
+	}
+	att := g.HonestAttestation(label+"/att", orig)
+	if att == nil {
+		att = []byte{}
+	}
+	caller := make([]byte, 32)
+	if g.Bool(label + "/nzcaller") {
+		caller = g.NonZero32(label+"/cl", by)
+	}
+	n := g.Int(label+"/bl", 0, 64)
+	if uint64(n) > g.W.Model.MaxBody {
+		n = int(g.W.Model.MaxBody)
+	}
+	return TxOp("replace", &types.MsgReplaceMessage{From: by, OriginalMessage: orig, OriginalAttestation: att, NewMessageBody: g.Bytes(label+"/body", n), NewDestinationCaller: caller})
+}
+
+// ValidRepDepOp is the deposit counterpart of ValidReplaceOp.
+func (g *G) ValidRepDepOp(label string, by string) *Op {
+	var cands []SentMsg
+	for _, s := range g.W.Sent {
+		if s.Burn != nil && bytes.Equal(s.Msg.Sender, Pad32(ModuleAddrBytes())) && AcctOfBytes(s.Burn.MsgSender[12:]) >= 0 && IsZero(s.Burn.MsgSender[:12]) && !IsZero(s.Msg.Recip) {
+			cands = append(cands, s)
+		}
+	}
+	var orig []byte
+	if len(cands) > 0 && g.Pct(label+"/real", 70) {
+		s := Pick(g, label+"/orig", cands)
+		orig, by = s.Bytes, sdk.AccAddress(s.Burn.MsgSender[12:]).String()
+	} else {
+		orig = g.forgeOutbound(label+"/forge", Pad32(ModuleAddrBytes()), true, by)
+	}
+	att := g.HonestAttestation(label+"/att", orig)
+	if att == nil {
+		att = []byte{}
+	}
+	caller := make([]byte, 32)
+	if g.Bool(label + "/nzcaller") {
+		caller = g.NonZero32(label+"/cl", by)
+	}
+	return TxOp("repdep", &types.MsgReplaceDepositForBurn{From: by, OriginalMessage: orig, OriginalAttestation: att, NewDestinationCaller: caller, NewMintRecipient: g.NonZero32(label+"/mr", by)})
+}
